@@ -6,3 +6,5 @@ import NutilsVerif.Props.Poly
 import NutilsVerif.Props.C01Driver
 import NutilsVerif.Props.C10
 import NutilsVerif.Props.C12
+import NutilsVerif.Props.C05
+import NutilsVerif.Props.C05Eval
